@@ -538,8 +538,10 @@ fn err_class(e: &ldap3::LdapError) -> String {
 pub fn run(sc: &Scenario, cfg: &RunCfg) -> RunResult {
     let case: EstabCase = serde_json::from_str(&sc.note).expect("estab case");
     let mut obs = run_case(&case, cfg.tokio_seed);
-    // ephemeral ports and scratch directory names are not part of the observation
+    // ephemeral ports and scratch directory names are not part of the observation; nor are the peer's diagnostic
+    // notes that depend on how far its thread got before the case ended (no oracle reads them)
     obs.url = normalise_url(&obs.url);
+    obs.peer.notes.retain(|n| n != "nothing-after-starttls" && n != "clienthello-pipelined-with-starttls");
     let mut hist = vec![];
     let js = serde_json::to_string(&obs).unwrap();
     hist.push(Ev { seq: 1, t_ms: obs.t_ms, kind: EvKind::Note(format!("estab {js}")) });
